@@ -615,13 +615,27 @@ impl Task for ExternalEquivalenceTask {
         let right = control_translate(theory_translate(self.program));
 
         // TODO: Warn when a conflict between private predicates is encountered
-        // TODO: Check if renaming creates new conflicts
-        let right = right.rename_predicates(
-            &specification_private_predicates
-                .intersection(&program_private_predicates)
-                .map(|p| (p.clone(), "p".to_string()))
-                .collect(),
-        );
+        // A renamed private predicate must not collide with a predicate of the task (or with another
+        // renamed one): p_p, or p_p1, p_p2, ... if that name is taken
+        let mut occupied: IndexSet<fol::Predicate> = public_predicates.clone();
+        occupied.extend(specification_private_predicates.iter().cloned());
+        occupied.extend(program_private_predicates.iter().cloned());
+        let mut renaming = IndexMap::new();
+        for p in specification_private_predicates.intersection(&program_private_predicates) {
+            let mut extension = "p".to_string();
+            let mut i = 0usize;
+            let renamed = |extension: &str| fol::Predicate {
+                symbol: format!("{}_{}", p.symbol, extension),
+                arity: p.arity,
+            };
+            while occupied.contains(&renamed(&extension)) {
+                i += 1;
+                extension = format!("p{i}");
+            }
+            occupied.insert(renamed(&extension));
+            renaming.insert(p.clone(), extension);
+        }
+        let right = right.rename_predicates(&renaming);
 
         let mut user_guide_assumptions = Vec::new();
         for formula in self.user_guide.formulas() {
